@@ -609,6 +609,6 @@ pub fn run(ctx: &mut Ctx) {
         "actors do not restart (as the statement assumes)".into(),
     ];
     let ctx = &*ctx;
-    ctx.cases("walk", ctx.n(5000, 80000), 0, walk_case);
-    ctx.cases("checker", ctx.n(12, 120), 3, checker_case);
+    ctx.cases("walk", ctx.n(5000, 300000), 0, walk_case);
+    ctx.cases("checker", ctx.n(12, 300), 3, checker_case);
 }
